@@ -11,7 +11,8 @@
    the model's real entry points encode_msg / decode_msg.
    ... AND FOR NESTED STRUCTURES (C01_nested_message_roundtrip): the same for parameter trees
    in which a VALUE parameter may be a STRUCTURE of such parameters, to any nesting depth
-   (side condition: the model's fuel suffices, a computable inequality).
+   (side condition: the model's fuel suffices, a computable inequality), with PHYS-CONST
+   parameters and LEADING-LENGTH byte fields as further leaf kinds.
    NOT PROVED (correspondence + oracle only): fields, dynamic-length types, explicit or bit
    positions, BYTE-SIZE, length keys (see DESIGN.md, "partial"). *)
 From Coq Require Import ZArith List Bool.
@@ -135,3 +136,31 @@ Theorem C01_nested_example :
   (3 * 2 + 3 <= fuel_of ps)%nat.
 Proof. exact tree_example. Qed.
 Print Assumptions C01_nested_example.
+
+(* further kinds of parameters which may occur as leaves (FLeafM) of such messages: the tree theorem
+   only needs that the parameter appends its encoding and reads it back *)
+Theorem C01_physconst_leaf : forall x cv,
+  f_const x = None -> fits x cv -> appends_ge 2 2 (physconst_param x cv) None cv.
+Proof. exact physconst_appends. Qed.
+Print Assumptions C01_physconst_leaf.
+
+(* a byte field with LEADING-LENGTH-INFO-TYPE (a dynamic-length type), the empty field included *)
+Theorem C01_leading_length_leaf : forall nm bl hl b,
+  0 < bl <= 64 -> bytes_ok b = true -> blen b < 2 ^ bl ->
+  appends_ge 2 2 (leading_param nm bl hl) (Some (VBytes b)) (VBytes b).
+Proof. exact leading_appends. Qed.
+Print Assumptions C01_leading_length_leaf.
+
+Theorem C01_nested_example2 :
+  let u8 nm := mkF nm 8 BUint None true BUint None in
+  let ts := [FLeaf (mkF [115] 8 BUint None true BUint (Some (VInt 34))) (VInt 34);
+             FLeafM (mkM (physconst_param (u8 [107]) (VInt 7)) None (VInt 7));
+             FNode [111] [FLeaf (u8 [97]) (VInt 1);
+                          FLeafM (mkM (leading_param [108] 8 true) (Some (VBytes [170; 187])) (VBytes [170; 187]))];
+             FLeafM (mkM (leading_param [101] 16 false) (Some (VBytes [])) (VBytes []))] in
+  let ms := map t_member ts in
+  let ps := map m_p ms in
+  encode_msg ps None (VDict (in_dict ms)) = Ok ([34; 7; 1; 2; 170; 187; 0; 0], false) /\
+  decode_msg ps [34; 7; 1; 2; 170; 187; 0; 0] = Ok (VDict (out_dict ms)).
+Proof. exact tree_example2. Qed.
+Print Assumptions C01_nested_example2.
